@@ -342,6 +342,10 @@ fn run_init(
         ..Default::default()
     };
 
+    // Reject an unsupported validation library or a missing project path before anything is
+    // written
+    config.validate()?;
+
     // Determine file format and save
     if is_tauri_config {
         // For tauri.conf.json, require it to exist
